@@ -335,6 +335,19 @@ func (e Engine) Generate(r *core.Rand, tier core.Tier) *core.Scenario {
 	if e.Prop == "C07" {
 		addCrashOps(r, sc)
 	}
+	// Nodes that join by state sync (statesync.go). The choices come from a PRNG of their own, so
+	// the rest of the scenario is what it would be without them.
+	if k.Disk {
+		sr := core.NewRand(core.Derive(core.Hash64([]byte(k.Gen.Salt)), "statesync", 0))
+		switch {
+		case e.Prop == "C12":
+			addSyncOps(sr, sc, sr.Range(1, 2), false)
+		case e.Prop == "C07" && sr.Chance(1, 3):
+			addSyncOps(sr, sc, 1, true)
+		case e.Prop == "C01" && sr.Chance(1, 3):
+			addSyncOps(sr, sc, 1, false)
+		}
+	}
 	return sc
 }
 
